@@ -121,9 +121,16 @@ fn case(t0: &mut Tape, w: &Worker) -> CaseResult {
             expect_errors = true;
         }
         StopKind::FatalMidstream => {
-            let li = ot.below(stream.links.len());
+            let mut li = ot.below(stream.links.len());
             let np = stream.links[li].packets.len();
-            let pi = 1 + ot.below(np.max(2) - 1);
+            let mut pi = 1 + ot.below(np.max(2) - 1);
+            // "at any packet index": sometimes the very first packet of the input
+            if ot.chance(1, 6) {
+                li = stream.order.first().copied().unwrap_or(0);
+                pi = 0;
+                out.labels.push("fatal:first_packet".into());
+            }
+            let np = stream.links[li].packets.len();
             if pi < np {
                 stream.links[li].packets[pi].rdh.offset_next = *ot.pick(&[0u16, 63, 20_000]);
             }
